@@ -6,5 +6,6 @@ CONSTANTS
   Configs = {1, 12}
   MaxList = 3
   GenMode = TRUE
+  SetAll = FALSE
   DEV_SpellingInEq = FALSE
 INVARIANT Emit
